@@ -34,10 +34,24 @@ typedef enum varintBitmapContainerType {
 } varintBitmapContainerType;
 
 /* Container threshold constants */
+#if defined(MATTSTA_VARINT_VERIF) && defined(VARINT_VERIF_BITMAP_MAX_VALUE) && \
+    defined(VARINT_VERIF_BITMAP_ARRAY_MAX) &&                                  \
+    defined(VARINT_VERIF_BITMAP_BITMAP_SIZE) &&                                \
+    defined(VARINT_VERIF_BITMAP_DEFAULT_ARRAY_CAPACITY)
+/* Verification builds only: scaled-down container constants so that solver
+ * based checks can drive the container transitions with symbolic data.
+ * Never defined by the normal build. */
+#define VARINT_BITMAP_MAX_VALUE VARINT_VERIF_BITMAP_MAX_VALUE
+#define VARINT_BITMAP_ARRAY_MAX VARINT_VERIF_BITMAP_ARRAY_MAX
+#define VARINT_BITMAP_BITMAP_SIZE VARINT_VERIF_BITMAP_BITMAP_SIZE
+#define VARINT_BITMAP_DEFAULT_ARRAY_CAPACITY                                   \
+    VARINT_VERIF_BITMAP_DEFAULT_ARRAY_CAPACITY
+#else
 #define VARINT_BITMAP_MAX_VALUE 65536
 #define VARINT_BITMAP_ARRAY_MAX 4096
 #define VARINT_BITMAP_BITMAP_SIZE 8192 /* 65536 bits / 8 */
 #define VARINT_BITMAP_DEFAULT_ARRAY_CAPACITY 16
+#endif
 
 /* Bitmap container structure */
 typedef struct varintBitmap {
